@@ -30,6 +30,8 @@ fn dispatch(prop: &str, rec: &mut Rec) {
         "C05" => checks::c05::run(rec),
         "C06" => checks::c06::run(rec),
         "C07" => checks::c07::run(rec),
+        "C08" => checks::c08::run(rec),
+        "C09" => checks::c09::run(rec),
         "C10" => checks::c10::run(rec),
         "C11" => checks::c11::run(rec),
         _ => {
